@@ -16,6 +16,9 @@ make)
   sed -i "s#path = \"/repo\"#path = \"$D/repo\"#" "$D/verif/harness/Cargo.toml"
   mkdir -p "$D/verif/tmp"
   echo "$D" ;;
+sync)
+  rsync -a --delete --exclude harness/target --exclude tmp --exclude .git --exclude replays /verif/ "$D/verif/"
+  sed -i "s#path = \"/repo\"#path = \"$D/repo\"#" "$D/verif/harness/Cargo.toml" ;;
 try)
   P="$3"; ID="$4"; TIER="${5:-quick}"
   cd "$D/repo" && git checkout -q -- . && git clean -fdq src tests 2>/dev/null
